@@ -296,7 +296,7 @@ def _same_value(a, b) -> bool:
 def run(index: RepoIndex, rep) -> None:
     rep.rule('C13.R6', 'row and column quantities are not exchanged in the reset functions and the drawing helpers (axis typing, E14)', floor=1)
     from ..axes import axis_rule
-    axis_rule(index, rep, 'C13.R6', ('gym_gridverse/envs/reset_functions.py', 'gym_gridverse/design.py'), floor=100)
+    axis_rule(index, rep, 'C13.R6', ('gym_gridverse/envs/reset_functions.py', 'gym_gridverse/design.py'), floor=50)
     rep.rule('C13.R1', 'error discipline: every raise is ValueError; parameters are not '
              'validated by assert', floor=14)
     rep.rule('C13.R2', 'draws of several cells/colours/columns are without replacement', floor=6)
